@@ -630,6 +630,102 @@ def fnode(ctx, dotted):
     return node, mod
 
 
+REDUCERS = {"jax.numpy.sum", "jax.numpy.add.reduce"}
+
+
+def fully_reduced(t):
+    """True when the term is a scalar whatever the shape of the choices involved: a constant, a full reduction (jnp.sum without an axis),
+    a trace's score accessor (get_score reduces), or arithmetic / a select over such terms.  A callee's returned density or weight
+    (`gen_fn.assess(...)[0]`, `gen_fn.generate(...)[1]`, `self.logpdf(...)`) is array-valued for an array-valued choice: not reduced."""
+    if not isinstance(t, tuple) or not t:
+        return False
+    h = t[0]
+    if h == "const":
+        return True
+    if h == "call":
+        fn = t[1]
+        if fn[0] == "name" and fn[1] in REDUCERS:
+            return not any(k in ("axis",) for k, _ in t[3]) and len(t[2]) == 1
+        if fn[0] == "name" and fn[1] in ("jax.numpy.array", "jax.numpy.asarray", "jax.numpy.float32") and t[2] and t[2][0][0] == "const":
+            return True
+        if fn[0] == "name" and fn[1] in ("jax.numpy.zeros", "jax.numpy.ones") and t[2] and t[2][0] == ("tuple", ()):
+            return True
+        if fn[0] == "attr" and fn[2] == "get_score" and not t[2]:
+            return True
+        if fn[0] == "name" and fn[1] in (CORE + "get_score",):
+            return True
+        if fn[0] == "name" and fn[1] in ("jax.numpy.where", "jax.lax.select") and len(t[2]) == 3:
+            return fully_reduced(t[2][1]) and fully_reduced(t[2][2])
+        if fn[0] == "attr" and fn[2] == "sum" and not t[2] and not t[3]:
+            return True
+        return False
+    if h == "binop":
+        return fully_reduced(t[2]) and fully_reduced(t[3])
+    if h == "unop":
+        return fully_reduced(t[2])
+    if h == "ifexp":
+        return fully_reduced(t[2]) and fully_reduced(t[3])
+    if h == "attr" and t[1] == SELF and t[2] in ("score", "weight", "logp"):
+        return True
+    return False
+
+
+def density_reduction(ctx, which, rule="SHAPE-density-reduction"):
+    """A @gen function's density, weight and score are scalars whatever the shapes of its choices.  The Simulate handler adds the
+    sub-trace's score through get_score(), which sums over the coordinates of an array-valued choice; its siblings must add the callee's
+    density / weight under the same full reduction, or a model that mixes a scalar choice with an array-valued one gets an array
+    'density' in which the scalar term is counted once per coordinate.  Likewise Distribution.update / regenerate combine a fresh
+    logpdf with the old trace's (already reduced) score.  `which`: the handlers / Distribution methods this property covers."""
+    targets = {"Assess": [("Assess", "logp")], "Generate": [("Generate", "weight")], "Update": [("Update", "weight")], "Regenerate": [("Regenerate", "weight")]}
+    for hname in which:
+        if hname in targets:
+            for cls, field in targets[hname]:
+                ev = mk_ev(ctx)
+                dotted = CORE + cls + ".__call__"
+                s = summarize(ctx, ev, dotted)
+                construct = f"core.{cls}.__call__ (self.{field})"
+                got = field_final(s, field)
+                ctx.need(got is not None, f"{dotted}: self.{field} is never updated (anchor vanished)")
+                bad = [leaf for _, leaf in all_cases_(got) if not fully_reduced(leaf)]
+                if bad:
+                    ctx.bad(rule, construct, "sub-call term reduced to a scalar before it is accumulated",
+                            f"self.{field} accumulates {short(bad[0], ev, 160)}: the callee's {'density' if field == 'logp' else 'weight'} is array-valued for an array-valued choice "
+                            "(e.g. normal(jnp.zeros(3), 1.) @ 'b'), so the accumulated value becomes an array and every scalar term is counted once per coordinate, while the "
+                            "Simulate handler's score (get_score) is the reduced sum", func_loc(ctx, dotted))
+                else:
+                    ctx.ok(rule, construct, "accumulates a fully reduced term")
+        else:
+            # Distribution.update / Distribution.regenerate
+            ev = mk_ev(ctx)
+            dotted = CORE + "Distribution." + hname
+            s = summarize(ctx, ev, dotted)
+            construct = f"core.Distribution.{hname} (weight)"
+            bad = []
+            n = 0
+            for asg, leaf in all_cases_(s.ret):
+                it = items(leaf)
+                if it is None or len(it) != 3:
+                    continue
+                n += 1
+                w = it[1]
+                # mixing: a reduced accessor (get_score) added to an unreduced logpdf
+                has_red = any(is_call(x) and x[1][0] == "attr" and x[1][2] == "get_score" for x in subterms(w))
+                if has_red and not fully_reduced(w):
+                    bad.append(w)
+            ctx.need(n >= 1, f"{dotted}: return shape not recognised")
+            if bad:
+                ctx.bad(rule, construct, "fresh log density reduced like the old score it is combined with",
+                        f"weight = {short(bad[0], ev, 160)} adds an unreduced logpdf (one entry per coordinate of the value) to tr.get_score(), which is already summed over the "
+                        "coordinates: for an array-valued choice every entry is new_i − Σ_j old_j, not the density ratio", func_loc(ctx, dotted))
+            else:
+                ctx.ok(rule, construct, "weight combines terms under the same reduction")
+
+
+def all_cases_(t):
+    from .util import all_cases
+    return list(all_cases(t))
+
+
 def address_glue(ctx, rule="ROLE-address-glue"):
     """The path from `g(*args, **kwargs) @ addr` in a @gen body to the active handler: GFI.__call__ (inside a handler) and GFI.T capture
     exactly (self, args, kwargs) in a Thunk; outside any handler GFI.__call__ returns the return value of simulate on the same arguments;
@@ -1237,9 +1333,35 @@ def cond_trace_rules(ctx, rule="ROLE-CondTr"):
         dotted = CORE + "CondTr." + m
         s = summarize(ctx, ev, dotted)
         ck = Checker(ctx, ev, lin, rule, f"core.CondTr.{m}", func_loc(ctx, dotted))
-        for asg, leaf in spine_cases(s.ret):
+        def stacked_guard(asg_):
+            # a path taken only when the trace is stacked (jnp.ndim / jnp.shape of the condition is non-trivial)
+            return any(v is True and is_call(c) and c[1][0] == "name" and c[1][1] in ("jax.numpy.ndim", "jax.numpy.shape", "numpy.ndim", "numpy.shape")
+                       and c[2] == (CK,) for c, v in asg_.items())
+        cases = list(spine_cases(s.ret))
+        for asg, leaf in cases:
+            if stacked_guard(asg):
+                continue
             ck.eq(f"{m} = where(check, branch0, branch1)", leaf, where(CK, f(T0), f(T1)))
         ck.done()
+        if m == "get_score":
+            # stacking clause: every Trace is a Pytree that Vmap / Scan stack along a leading axis (Vmap.simulate returns the callee's trace
+            # type with batched fields), and get_score of a stacked trace must be the sum over instances of the per-instance score.
+            # Tr and ScanTr reduce last (jnp.sum over everything); a select on the per-instance condition whose arms are already
+            # fully reduced sums each branch over *all* instances first and selects afterwards.
+            bad = []
+            for asg, leaf in cases:
+                for x in subterms(leaf):
+                    if is_call(x) and x[1][0] == "name" and x[1][1] in ("jax.numpy.where", "jax.lax.select") and len(x[2]) == 3 \
+                            and any(y == CK for y in subterms(x[2][0])) and (fully_reduced(x[2][1]) or fully_reduced(x[2][2])):
+                        bad.append(x)
+            construct = "core.CondTr.get_score [trace stacked by Vmap/Scan]"
+            if bad:
+                ctx.bad("ROLE-stacked-score", construct, "select per instance, then reduce",
+                        f"{short(bad[0], ev, 140)}: under Vmap (or Scan) directly over a Cond the condition has one entry per instance while each arm is the branch score "
+                        "already summed over all instances, so the trace's score is a vector of cross-instance sums instead of Σ_i where(check_i, s0_i, s1_i) "
+                        "(score ≠ −assess for the vectorised trace)", func_loc(ctx, dotted))
+            else:
+                ctx.ok("ROLE-stacked-score", construct, "no select over already reduced branch scores")
     for m in ("get_choices", "get_fixed_choices"):
         dotted = CORE + "CondTr." + m
         s = summarize(ctx, ev, dotted)
